@@ -128,7 +128,7 @@ SPEC = {
              'stated pre-conditions); for every pipeline: result == applying the constituent passes one after '
              'another (Circuit.__eq__). Non-trivial: the pass / pipeline changes the circuit.'),
     'assumptions': ['reference truth tables and reachability from vlib/refsem.py'],
-    'subs': [Sub('effects', simp.cases, check_effects, {'quick': 3000, 'thorough': 200000})],
+    'subs': [Sub('effects', lambda tier: simp.cases(tier, user_passes=True), check_effects, {'quick': 3000, 'thorough': 200000})],
     'required_classes': {'effects': ['pass:RRG', 'pass:RRG+rm', 'pass:MU', 'pass:MDG', 'pass:MEG', 'top:pipe',
                                      'top:comp', 'top:list', 'top:cleanup', 'adjacent_equal',
                                      'adjacent_rrg_flags_differ', 'mu_all_negations', 'mu_all_buffers', 'declared_dependencies']},
